@@ -530,19 +530,21 @@ class TransformedParameter(AbstractParameter, Parametric, collections.abc.Callab
         # parse transform
         klass = get_class(data['transform'])
         signature_params = list(inspect.signature(klass.__init__).parameters)
-        params = []
+        # arguments are passed by keyword: an optional argument that is not
+        # given must not shift the following ones
+        params = {}
         if 'parameters' in data:
             for arg in signature_params[1:]:
                 if arg in data['parameters']:
                     if isinstance(data['parameters'][arg], numbers.Number):
-                        params.append(data['parameters'][arg])
+                        params[arg] = data['parameters'][arg]
                     elif isinstance(data['parameters'][arg], list):
-                        params.append(
-                            Parameter(None, torch.tensor(data['parameters'][arg]))
+                        params[arg] = Parameter(
+                            None, torch.tensor(data['parameters'][arg])
                         )
                     else:
-                        params.append(process_object(data['parameters'][arg], dic))
-        transform = klass(*params)
+                        params[arg] = process_object(data['parameters'][arg], dic)
+        transform = klass(**params)
 
         if isinstance(data['x'], list):
             x = []
